@@ -204,7 +204,8 @@ PROPS["C13"] = dict(
 PROPS["C01"] = dict(
     lean_modules=["QuaiVerif.Props.C01"],
     areas=[dict(name="utxo", n_quick=500, n_thorough=10000, seeds_thorough=3, n_search=2000),
-           dict(name="c07", n_quick=2, n_thorough=12, seeds_thorough=2, n_search=6, timeout=3000)],
+           dict(name="c07", n_quick=2, n_thorough=12, seeds_thorough=2, n_search=6, timeout=3000),
+           dict(name="c10", n_quick=3, n_thorough=20, seeds_thorough=2, n_search=6, timeout=3000)],
     facts=["backends_track", "denominations"],
     rule="a case is one block of 1-6 Qi transactions over a UTXO set of 5-30 entries, processed by the real core.ProcessQiTx on one batch in pending mode on "
          "memorydb / leveldb / pebble, with real keys and Schnorr / MuSig2 signatures, each tx passed through the wire encoding first: mostly valid spends plus "
@@ -294,7 +295,7 @@ PROPS["C06"] = dict(
 PROPS["C07"] = dict(
     lean_modules=["QuaiVerif.Props.C07"],
     areas=[dict(name="c07", n_quick=4, n_thorough=40, seeds_thorough=3, n_search=12, timeout=3000)],
-    facts=["validate_state_compares", "validate_body_compares", "process_compares"],
+    facts=["validate_state_compares", "validate_body_compares", "process_compares", "mirror_worker", "mirror_processor"],
     rule="a case is one 36-block history of the real zone node (see C06) in which every block is assembled by the node's own worker from its tx pool and "
          "inbound ETX queue (30% of cases in the pre-TimeToStartTx regime with ETX backlogs of 40-160 per region block) and must be accepted by the same node; "
          "before 35% of the blocks up to 3 mutants are offered first: one declared result changed (EVM/UTXO/ETX-set root, receipt hash, gas used, state "
